@@ -285,3 +285,6 @@ fn sq_capacity_limit_2() {
 pub(crate) fn mk_handle(index: usize) -> SpanHandle {
     SpanHandle { index }
 }
+pub(crate) fn records(q: &SpanQueue) -> &RawSpans {
+    &q.span_queue
+}
